@@ -273,7 +273,14 @@ def probes(ctx):
             req = [s for frm, syms in b['PB-MIB'][0].imports if frm == 'PA-MIB' for s in syms]
             bad = any(s not in exp for s in req)
         ctx.probe('D16', bad)
-        ctx.probe('D17', _exec_fails(PROBE_D17)[0])
+        d17_fails, c17 = _exec_fails(PROBE_D17)
+        ctx.probe('D17', d17_fails)
+        if not d17_fails:
+            # keyword-named symbols compile now: then they are ordinary symbols and the whole oracle applies to them
+            # (the listed finding is "they do not compile", not "they come out under another name")
+            c_, mm_ = setcheck.evaluate(PROBE_D17, backends=('json', 'pysnmp'))
+            for backend, facet, detail in mm_:
+                raise Violation('keyword-named-symbol:%s:%s' % (backend, facet), detail, {'mset': PROBE_D17}, {'texts': c_.texts})
         ctx.probe('D35', _exec_fails(PROBE_D35)[0])
         ctx.probe('D30', _exec_fails(PROBE_D30)[0])
         ctx.probe('D36', _text_exec_fails(PROBE_D36_TEXT))
